@@ -175,7 +175,12 @@ def playback(overlay, package, harness, release_too=False):
     for p, old in pre.items():
         new = open(p).read()
         if new != old:
-            test_src += new[len(old):] if new.startswith(old) else new
+            if new.startswith(old):
+                test_src += new[len(old):]
+            else:
+                k = new.find("/// Test generated for harness")
+                test_src += new[k:] if k >= 0 else new[-3000:]
+            test_src = test_src[:6000]
             test_names += re.findall(r"fn (kani_concrete_playback_\w+)", new)
     if not test_names:
         return dict(reproduced=None, test="", log=(p1.stdout + p1.stderr)[-3000:])
